@@ -256,12 +256,19 @@ PROPS['C04'] = dict(
           '(success if pending, 0x92 otherwise) and frees the identifier; through every session step (outbound traffic, disconnect, '
           'resumed CONNACK, other packets) a pending identifier stays pending unless that step is its PUBREL or a CONNACK without '
           'session present, which empties the set; the set is duplicate-free and at most 8 in every reachable world; the engine '
-          'starts the first fresh acknowledgement of the queue (arrival order). Tied to the code by differential runs (pending set, '
-          'control queue, reader state compared after every action) and a reference receiver (Python) checking every delivery and '
-          'every acknowledgement on the wire.',
-    note='Partial: the explicit residue `refused` (control queue already holds 8 entries, or the acknowledgement exceeds the '
-         'broker Maximum Packet Size) is not shown unreachable; in it a first QoS 2 arrival is recorded but neither acknowledged nor '
-         'delivered (see DESIGN.md). Trusted: Coq kernel, model, extraction, harness, Python reference. No axioms.')
+          'starts the first fresh acknowledgement of the queue (arrival order). The client drains before it reads: in EVERY '
+          'execution (every program, script of partial writes / faults / dropped futures, broker behaviour, reconnects) every '
+          'inbound packet was handled with nothing left to write (ghost flag w_drained, C04_drained_before_every_inbound_packet), '
+          'so the acknowledgement joins an EMPTY control queue, cannot be refused for lack of room, and is written and flushed '
+          'before the next packet is read — acknowledgements reach the wire in arrival order (C04_drained_not_refused and the '
+          '*_drained forms of the handling theorems). Tied to the code by differential runs (pending set, control queue, reader '
+          'state compared after every action), a reference receiver (Python) checking every delivery and every acknowledgement on '
+          'the wire, and an independent validator of broker packets (a certainly valid PUBLISH must not be answered with '
+          'InvalidPacket).',
+    note='Environment assumption of the residue-free theorems: the broker Maximum Packet Size admits a 5-byte acknowledgement '
+         '(AckFits). Below that (a limit of 1..4 bytes) a first QoS 2 arrival is recorded, the connection is closed as C14 demands, '
+         'and the retransmission is treated as a duplicate (observation in DESIGN.md 7.3). Trusted: Coq kernel and VM (the '
+         'non-vacuity example is computed), model, extraction, harness, Python reference receiver and validator. No axioms.')
 
 PROPS['C12'] = dict(
     sess=[('py_c12', 300, 5000), ('sweep_c12', 400, 8000), ('sess_c12', 200, 4000), ('py_edges', 200, 3000)],
